@@ -6,6 +6,7 @@ import (
 	"bytes"
 	"fmt"
 	"math"
+	"os"
 	"sort"
 	"testing"
 
@@ -53,6 +54,7 @@ type env2 struct {
 	prefixes [][]byte
 	lastSig  string
 	nviol    int
+	descBad  bool
 	target   int // number of keys the generator tries to keep in the trie
 }
 
@@ -314,6 +316,13 @@ func (e *env2) apply(o op2) {
 		return
 	}
 	e.checkReads()
+	if _, bad := descendantsBroken(rootNode(e.t)); bad != "" && !e.descBad {
+		e.descBad = true
+		e.c.Count("internal_descendants_counter_wrong_after_op_"+o.kind, 1)
+		if os.Getenv("VERIF_TRIE_DEBUG") != "" {
+			fmt.Fprintf(os.Stderr, "DESC %s after %v\n", bad, e.hist)
+		}
+	}
 	_, _ = e.t.Hash()
 	s := shapeOf(e.t)
 	e.lastSig = s.sig.String()
@@ -713,6 +722,12 @@ func corpus2() []script2 {
 				{kind: "sweep", key: b(0x12)}, {kind: "sweep", key: b()}, {kind: "sweep", key: b(0x12, 0x34)}, {kind: "sweep", key: b(0x77)},
 				{kind: "climit", key: b(0x12), limit: 1}},
 			prefix: [][]byte{b(0x12)}},
+		{name: "limited clears miscounted removed nodes, a later ClearPrefix(0x11) removed nothing (fixed, Descendants underflow)",
+			ops: []op2{put(b(0x00), 1), put(b(0x11), 1), put(b(0x11, 0x22, 0x10), 1), put(b(0x11, 0x22, 0x20), 1), put(b(0x11, 0x22, 0x21), 1),
+				put(b(0x11, 0x33, 0x10), 1), put(b(0x11, 0x33, 0x20), 1), put(b(0x11, 0x33, 0x21), 1),
+				{kind: "climit", key: b(0x11, 0x22), limit: 2}, {kind: "climit", key: b(0x11, 0x33), limit: 2},
+				{kind: "del", key: b(0x11, 0x22, 0x21)}, {kind: "clear", key: b(0x11)}},
+			prefix: [][]byte{b(0x11)}},
 		{name: "limited clear with limit 0 and nothing matching",
 			ops: []op2{put(b(0x12), 1), {kind: "climit", key: b(0x55), limit: 0}, {kind: "climit", key: b(0x12), limit: 0}}},
 		{name: "hashed values (V1) through every call",
